@@ -719,6 +719,10 @@ def _fd(name):
     return f
 
 
+def _is_arraylike(a):
+    return isinstance(a, np.ndarray) or is_field(a)
+
+
 def _builtin_dtype(a):
     """the Python type that names the dtype of `a` (float for float64, complex for complex128, ...), else the dtype itself"""
     return {'float64': float, 'complex128': complex, 'bool': bool, 'int64': int}.get(np.asarray(a).dtype.name, np.asarray(a).dtype)
@@ -838,8 +842,9 @@ EXT = {
     'dunder_array_copy': dict(f=lambda a: a.__array__(a.dtype, copy=True), ar=1, mem='copy'),
     'dunder_array_copy_nodtype': dict(f=lambda a: a.__array__(copy=True), ar=1, mem='copy'),
     'astype_same': dict(f=lambda a: a.astype(a.dtype), ar=1, mem='copy'),
-    'array_nocopy': dict(f=lambda a: np.array(a, copy=False), ar=1, mem='share'),
-    'array_same_nocopy': dict(f=lambda a: np.array(a, dtype=a.dtype, copy=False), ar=1, mem='share'),
+    # (copy=False cannot be honoured for a NumPy scalar - a 0-d result is a scalar on plain arrays and under the wrapper, a 0-d Field under the subclass)
+    'array_nocopy': dict(f=lambda a: np.array(a, copy=False) if _is_arraylike(a) else np.array(a), ar=1, mem='share'),
+    'array_same_nocopy': dict(f=lambda a: np.array(a, dtype=a.dtype, copy=False) if _is_arraylike(a) else np.array(a, dtype=a.dtype), ar=1, mem='share'),
     'asarray': dict(f=lambda a: np.asarray(a), ar=1, mem='share'),
     'asarray_same': dict(f=lambda a: np.asarray(a, dtype=a.dtype), ar=1, mem='share'),
     'asarray_builtin': dict(f=lambda a: np.asarray(a, dtype=_builtin_dtype(a)), ar=1, mem='share'),
@@ -3880,7 +3885,8 @@ def dispatch_oracle(rows, meths):
         for mode, v in (('old', o), ('new', n)):
             elementwise = kind in ('fn ufunc', 'fnMulti') and any(t.startswith('(') for t in tags) and not zero
             if elementwise and v not in ('field', 'tupleFields'):
-                bad.append(('dispatch grid-lost %s %s' % (mode, name.split('(')[0].split('.')[0]), '%s with %s-style fields returns %s instead of a Field on the grid of its Field operand' % (name, mode, v)))
+                variant = name[len(name.split('(')[0].split('.')[0]):]          # the ufunc's name stripped: `(f,a)`, `.accumulate(f)`, `(f,out=o,where=m)`
+                bad.append(('dispatch grid-lost %s ufunc%s' % (mode, variant), '%s with %s-style fields returns %s instead of a Field on the grid of its Field operand' % (name, mode, v)))
             elif kind == 'setitem' and v != 'wrote':
                 bad.append(('dispatch setitem %s' % mode, '%s with %s-style fields: %s (the target does not hold the assigned values)' % (name, mode, v)))
             elif kind == 'getitem' and not zero and v != 'field':
